@@ -34,7 +34,36 @@ def load_known():
     return json.load(open(p)).get('findings', [])
 
 
-def gather(prop, cfgs, only=None):
+def quick_sample(fn, c, db):
+    """quick tier: compile-time arguments (shift counts, lane indices, element counts) are sampled at the boundaries
+    plus one seed-dependent interior value; the thorough tier enumerates all of them"""
+    ta = [x for x in fn.get('targs', []) if isinstance(x, int)]
+    if not ta or fn['name'] not in ('bit_shift_left', 'bit_shift_right', 'rotl', 'rotr', 'extract', 'insert', 'load', 'aligned_load',
+                                    'store', 'aligned_store', 'gather', 'scatter'):
+        return True
+    v = ta[-1] if fn['name'] in ('load', 'aligned_load', 'gather') else ta[0]
+    t = None
+    for p in fn['params']:
+        tt = families.T(p['ctype'].rstrip('*'), db['structs'])
+        if tt.kind in ('vec', 'mask'):
+            t = tt
+            break
+    if t is None and fn.get('ret'):
+        tt = families.T(fn['ret'], db['structs'])
+        if tt.kind in ('vec', 'mask'):
+            t = tt
+    if t is None:
+        return True
+    if fn['name'] in ('bit_shift_left', 'bit_shift_right', 'rotl', 'rotr'):
+        hi = t.bits
+        keep = {0, 1, hi // 2, hi - 1, hi, hi + 1, 2 * hi - 1, 2 * hi, 0xffffffff, 2 + (SEED * 7 + hi) % max(1, hi - 3)}
+    else:
+        hi = t.W
+        keep = {0, 1, hi // 2, hi - 1, hi, (SEED * 5 + 3) % (hi + 1)}
+    return v in keep
+
+
+def gather(prop, cfgs, only=None, tier='thorough'):
     """-> (obligations deduplicated by TU text, per-config stats, extraction problems)"""
     obs = {}
     stats = {}
@@ -52,6 +81,8 @@ def gather(prop, cfgs, only=None):
                 continue
             c = families.contract_for(fn, db)
             if c is None or prop not in c.props:
+                continue
+            if tier == 'quick' and not quick_sample(fn, c, db):
                 continue
             if only and not re.search(only, '%s %s %s %s' % (c.family, fn['name'], fn.get('owner'), ' '.join(p['ctype'] for p in fn['params']))):
                 continue
@@ -140,7 +171,7 @@ def check_property(prop, tier, configs=None, only=None, keep=False, write_eviden
     sc = P.Scratch('run-%s' % prop)
     exit_code = 0
     try:
-        obs, stats, problems, dbs = gather(prop, cfgs, only)
+        obs, stats, problems, dbs = gather(prop, cfgs, only, tier)
         print('%s: %d distinct obligations (functions under contract x distinct extracted text) over configurations %s' % (
             prop, len(obs), ','.join(cfgs)), file=sys.stderr)
         if not obs:
